@@ -88,7 +88,7 @@ def run(ctx):
             ctx.report(b[1], None, one, None, None, 'merge_%d_call%d_%s' % (sd, b[0], b[1]))
         ctx.extra['merge_checker_calls'] = ctx.extra.get('merge_checker_calls', 0) + evs[-1]['checked']
         ctx.extra['merges_proposed'] = ctx.extra.get('merges_proposed', 0) + evs[-1]['merges_proposed']
-    return ctx.finish(rule='Repair.tla states the C10 clauses over (stores as the filters see them, region peers with down/pending lists, settings or rules + real fit, '
+    return ctx.finish(level='exploration', rule='Repair.tla states the C10 clauses over (stores as the filters see them, region peers with down/pending lists, settings or rules + real fit, '
                            'proposed operator); seeded clusters of 4-9 stores in every state (down, offline, offline+down, tombstone, disconnected, busy, low space, '
                            'snapshots, pending peers, fresh; zone/host/disk/engine labels), regions of 1-5 peers (learners, long/short down peers, pending), '
                            'max-replicas 1-5, location labels and isolation levels, 1-2 placement rules with constraints, joint consensus on/off, are given '
